@@ -44,6 +44,8 @@ type FuncBindings struct {
 	Funcs    []string `json:"funcs,omitempty"` // entry "funcs:<pkg>": every function of the package when the contracts were written
 	Loops    []string `json:"loops,omitempty"`
 	LoopExec []int    `json:"loop_exec,omitempty"`
+	// functions with `lit K ensures` clauses: the type text of every escaping literal in the order of the `$lit<K>` ordinals
+	Lits []string `json:"lits,omitempty"`
 }
 
 type Bindings map[string]*FuncBindings
@@ -509,6 +511,26 @@ func (u *Unit) baseLoop(stmt ast.Stmt, n int) int {
 	return 1000 + n
 }
 
+// baseLit: the recorded ordinal of the escaping literal that is now the k-th one (same ordinal unless the number of
+// escaping literals changed; then the literals are aligned by their type text); -1: a literal the contract does not know.
+func (u *Unit) baseLit(k int) int {
+	fb := u.eng.loadBindings()[u.pkgName+"."+strings.SplitN(u.key, "$lit", 2)[0]]
+	if fb == nil || fb.Lits == nil || len(fb.Lits) == len(u.funcLits) {
+		return k
+	}
+	cur := make([]string, len(u.funcLits))
+	for i, fl := range u.funcLits {
+		cur[i] = strings.Join(strings.Fields(u.exprText(fl.Type)), " ")
+	}
+	m := align(len(fb.Lits), len(cur), func(i, j int) bool { return fb.Lits[i] == cur[j] }, nil)
+	for b, c := range m {
+		if c == k {
+			return b
+		}
+	}
+	return -1
+}
+
 // isNewFunc: a function of the unit's package that did not exist when the contracts were written (it has no contract
 // because nobody could have written one): its calls are executed inline, so that moving lines into a helper does not
 // lose what was proved about them.
@@ -593,12 +615,19 @@ func cmdBindings(args []string) int {
 				}
 				fb.Calls[k] = texts
 			}
-			if ct := cs.Funcs[key]; ct != nil && len(ct.Loops) > 0 && !ct.Trusted {
+			if ct := cs.Funcs[key]; ct != nil && (len(ct.Loops) > 0 || len(ct.LitEnsures) > 0) && !ct.Trusted {
 				if res, err := eng.verifyFunc(p, key, false); err == nil && res.unit != nil && res.Unsupported == "" {
-					for _, s := range loopStmtsOf(fd) {
-						fb.Loops = append(fb.Loops, res.unit.loopHeader(s))
+					if len(ct.Loops) > 0 {
+						for _, s := range loopStmtsOf(fd) {
+							fb.Loops = append(fb.Loops, res.unit.loopHeader(s))
+						}
+						fb.LoopExec = append([]int{}, res.unit.loopExec...)
 					}
-					fb.LoopExec = append([]int{}, res.unit.loopExec...)
+					if len(ct.LitEnsures) > 0 {
+						for _, fl := range res.unit.funcLits {
+							fb.Lits = append(fb.Lits, strings.Join(strings.Fields(res.unit.exprText(fl.Type)), " "))
+						}
+					}
 				}
 			}
 			out[eng.shortName(p)+"."+key] = fb
